@@ -135,13 +135,19 @@ pub struct RefWriter<'a> {
     pub ghost_objects: bool,
     /// every object stream gets its Length as an indirect object (C08: many such lengths in one file)
     pub objstm_lengths_indirect: bool,
+    /// numbers for containers, length objects and the cross-reference stream are taken from gaps in the document's
+    /// numbering whenever there are any (the highest number of the file then belongs to a document object)
+    pub prefer_gap_numbers: bool,
+    /// when non-zero: every eligible object goes into an object stream and a stream is closed only when it holds this
+    /// many objects (ordinary producers put 100-200 objects into one stream; the default here is 1..8)
+    pub pack_limit: usize,
 }
 
 impl RefWriter<'_> {
     /// number for an object the writer adds on its own: the next number after everything used so far, or (feature
     /// "container-number-from-gap") a number below the maximum that no revision of the history uses
     fn alloc_num(&mut self, next_free: &mut u32, gaps: &mut Vec<u32>) -> u32 {
-        if !gaps.is_empty() && self.ch.maybe("container-number-from-gap", 1, 3) {
+        if !gaps.is_empty() && (self.prefer_gap_numbers || self.ch.maybe("container-number-from-gap", 1, 3)) {
             let i = self.ch.rng.usize_below(gaps.len());
             return gaps.swap_remove(i);
         }
@@ -156,7 +162,7 @@ fn is_regular(c: u8) -> bool {
 
 impl<'a> RefWriter<'a> {
     pub fn new(ch: &'a mut Choices) -> RefWriter<'a> {
-        RefWriter { ch, out: vec![], base: 0, ghost_objects: false, objstm_lengths_indirect: false }
+        RefWriter { ch, out: vec![], base: 0, ghost_objects: false, objstm_lengths_indirect: false, prefer_gap_numbers: false, pack_limit: 0 }
     }
     fn pos(&self) -> usize {
         self.out.len() - self.base
@@ -687,9 +693,9 @@ impl<'a> RefWriter<'a> {
             for id in &order {
                 let o = &rev.objects[id];
                 let eligible = use_objstm && id.1 == 0 && !matches!(o, RObj::Stream(..));
-                if eligible && self.ch.rng.chance(2, 3) {
+                if eligible && (self.pack_limit > 0 || self.ch.rng.chance(2, 3)) {
                     cur.push(id.0);
-                    if cur.len() >= 1 + self.ch.rng.usize_below(8) {
+                    if cur.len() >= if self.pack_limit > 0 { self.pack_limit } else { 1 + self.ch.rng.usize_below(8) } {
                         packed.push(std::mem::take(&mut cur));
                     }
                 } else {
